@@ -948,9 +948,14 @@ static Token *include_file(Token *tok, char *path, Token *filename_tok) {
   if (guard_name && hashmap_get(&macros, guard_name))
     return tok;
 
+  // A file that includes itself, directly or not, would never end.
+  if (filename_tok->file->include_depth >= 200)
+    error_tok(filename_tok, "#include nested too deeply");
+
   Token *tok2 = tokenize_file(path);
   if (!tok2)
     error_tok(filename_tok, "%s: cannot open file: %s", path, strerror(errno));
+  tok2->file->include_depth = filename_tok->file->include_depth + 1;
 
   guard_name = detect_include_guard(tok2);
   if (guard_name)
